@@ -178,6 +178,26 @@ def query_capacity(P, R, xq, b, rule='C06.BND.5'):
     R.floor(rule, 3, 'query formats')
 
 
+def more_answered_once(P, R, xq, rule='C06.MPT.3'):
+    """The answer to a MORE challenge goes to the challenging service once: on every path on from the query that forwards
+    it, the slot's bit in the "challenge open" mask is cleared.  A bit left set turns the client's next PASS - fresh
+    credentials with their own mode prefix - into another challenge answer."""
+    n = 0
+    for f in P.unit_fns(UNIT):
+        for s in f.calls():
+            if xq not in P.callees(s, False):
+                continue
+            fmt = rules.fmt_literal(s.ev, 2) or ''
+            if not fmt.startswith('MORE'):
+                continue
+
+            def clears(t):
+                return t.ev['k'] == 'store' and holds.outer_field(t.ev['lhs']) == 'more_mask' and t.ev.get('op') in ('&=', '=')
+            n += 1
+            R.ob(rule, f.path_avoiding(s, clears) is None, s, 'forwarding the answer to a MORE challenge clears the slot\'s challenge bit on every path', key='more-cleared')
+    R.floor(rule, 1)
+
+
 def fanout_complete(P, R, b, rule='C06.MPT.2'):
     """The query builder looks at every service slot: an empty or disabled slot (left behind by a reload) is skipped,
     it does not end the fan-out for the services configured behind it."""
@@ -808,6 +828,7 @@ def run(P, R, tier):
     query_callers(P, R, xq, b)
     no_flag_keyed_exit(P, R, b)
     fanout_complete(P, R, b)
+    more_answered_once(P, R, xq)
     query_capacity(P, R, xq, b)
     # the prerequisite test is bitset_h_andnot(needed, present)
     rules.bitset_primitives(P, R, 'C06.TAB.3')
